@@ -15,6 +15,13 @@ import (
 
 var Noop = func(c fox.Context) {}
 
+// a Clone kept from the previous request served by Rec (checked at the next one)
+var (
+	keptClone        fox.Context
+	keptCloneParams  [][2]string
+	keptClonePattern string
+)
+
 // LastServed is what the recording handler saw on the last request it served (single goroutine).
 var LastServed Obs
 
@@ -24,6 +31,17 @@ var LastServed Obs
 // as an extra pseudo-parameter, so that it differs from every expectation.
 var Rec = func(c fox.Context) {
 	o := Obs{Found: true, Pattern: c.Pattern()}
+	if keptClone != nil {
+		// a Clone taken during an EARLIER request and kept past its handler must still show that request's values
+		var now [][2]string
+		for p := range keptClone.Params() {
+			now = append(now, [2]string{p.Key, p.Value})
+		}
+		if fmt.Sprint(now) != fmt.Sprint(keptCloneParams) || keptClone.Pattern() != keptClonePattern {
+			o.Params = append(o.Params, [2]string{"!kept-Clone-changed", fmt.Sprintf("%v %q -> %v %q", keptCloneParams, keptClonePattern, now, keptClone.Pattern())})
+		}
+		keptClone = nil
+	}
 	for p := range c.Params() {
 		o.Params = append(o.Params, [2]string{p.Key, p.Value})
 	}
@@ -51,10 +69,15 @@ var Rec = func(c fox.Context) {
 		fox.WrapF(func(w http.ResponseWriter, r *http.Request) { check("WrapF", fox.ParamsFromContext(r.Context())) })(c)
 		fox.WrapH(http.HandlerFunc(func(w http.ResponseWriter, r *http.Request) { check("WrapH", fox.ParamsFromContext(r.Context())) }))(c)
 		var cl fox.Params
-		for p := range c.Clone().Params() {
+		clone := c.Clone()
+		for p := range clone.Params() {
 			cl = append(cl, p)
 		}
 		check("Clone", cl)
+		if !strings.Contains(fmt.Sprint(o.Params), "!") {
+			keptClone, keptClonePattern = clone, c.Pattern()
+			keptCloneParams = append([][2]string(nil), o.Params...)
+		}
 	}
 	LastServed = o
 }
